@@ -230,7 +230,7 @@ the changed inputs are reported to the workflow with cause FAILED, the scheduler
 theorem changed_before_run_fails_and_drains (sc : Scenario) (hc : sc.cancelledPre = false)
     (hch : changedInputs sc.dispatchInputs sc.diskPre ≠ []) :
     (executeJob sc).ranCommand = false ∧ (executeJob sc).hash = none ∧ (executeJob sc).wantsDefer = false ∧
-      (executeJob sc).failedInputs = changedInputs sc.dispatchInputs sc.diskPre ∧
+      (executeJob sc).failedInputs = applicable sc (changedInputs sc.dispatchInputs sc.diskPre) ∧
       (executeJob sc).drainUnexpected = true := by
   have hne : (changedInputs sc.dispatchInputs sc.diskPre).isEmpty = false := by
     cases hx : (changedInputs sc.dispatchInputs sc.diskPre).isEmpty with
@@ -245,7 +245,7 @@ theorem changed_during_run_fails_and_drains (sc : Scenario) (hc : sc.cancelledPr
     (hpre : changedInputs sc.dispatchInputs sc.diskPre = []) (hc2 : sc.cancelledPost = false)
     (hch : changedInputs sc.completionInputs sc.diskPost ≠ []) :
     (executeJob sc).ranCommand = true ∧ (executeJob sc).hash = none ∧ (executeJob sc).wantsDefer = false ∧
-      (executeJob sc).failedInputs = changedInputs sc.completionInputs sc.diskPost ∧
+      (executeJob sc).failedInputs = applicable sc (changedInputs sc.completionInputs sc.diskPost) ∧
       (executeJob sc).drainUnexpected = true ∧ tag (executeJob sc) false = "FAIL" ∧
       (executeJob sc).outCause = some false := by
   have hne : (changedInputs sc.completionInputs sc.diskPost).isEmpty = false := by
@@ -254,6 +254,35 @@ theorem changed_during_run_fails_and_drains (sc : Scenario) (hc : sc.cancelledPr
     | false => rfl
   unfold tag executeJob
   simp [hc, hpre, hc2, hne, classify]
+
+/-- The changed inputs that are recorded with cause FAILED are rows that are still BUILT or
+CONFIRMED in the recording transaction (the fix of the findings `build-error:hash-update-FAILED-on-*`):
+nothing that another request re-declared or marked MISSING meanwhile is written. -/
+theorem failed_update_only_recordable (sc : Scenario) :
+    ∀ p ∈ (executeJob sc).failedInputs, p ∉ sc.notRecordable := by
+  have key : ∀ l : List String, ∀ p ∈ applicable sc l, p ∉ sc.notRecordable := by
+    intro l p hp
+    unfold applicable at hp
+    rw [List.mem_filter] at hp
+    simpa using hp.2
+  intro p hp
+  unfold executeJob at hp
+  split at hp
+  · cases hp
+  · split at hp
+    · exact key _ p hp
+    · split at hp
+      · simp only [classify] at hp
+        split at hp <;> try (split at hp) <;> try (split at hp)
+        all_goals first | cases hp | exact key _ p hp
+      · exact key _ p hp
+
+/-- For a BUILT or CONFIRMED row the hash-transition table has an entry with cause FAILED whether the
+new hash is known or not, so that update cannot raise "Unexpected file hash update" (regenerated
+table). -/
+theorem failed_update_has_transition :
+    ∀ st ∈ [FileState.built, FileState.confirmed], ∀ known : Bool, (lookupTransition .failed st known).isSome := by
+  decide
 
 /-- **An announced input that is missing or not fresh makes the step run again later instead of
 succeed**: with unchanged inputs, a non-empty `unavailable`/`unfresh` set completes the step
